@@ -78,9 +78,7 @@ def run():
         e["meta"] = e["tags"]
     if not c.replay_path:
         def neg(pred, mut, prefix):
-            e = copy.deepcopy(next(e for e in evs if pred(e)))
-            mut(e)
-            c.add_negative(e, prefix)
+            c.negative_from(evs, pred, mut, prefix)
         def bump(e):
             f = e["out"][1]
             e["out"][1] = [1, (f[1] if f[0] > 0 else 0) + 5000, f[2]]
